@@ -157,6 +157,27 @@ func c01Run(w *core.W) {
 	if !c01BySize(w, emit) {
 		return
 	}
+	// F3: generator families (zips with nested loops, generator x body at two placements)
+	w.Family("F3-generators")
+	{
+		fams := c02Families(false)
+		n := 0
+		for _, fi := range []int{2, 0} {
+			ok := true
+			fams[fi].Each(func(stmts []T) bool {
+				n++
+				if fi == 0 && n%6 != 0 {
+					return true // every sixth member of the big product (C02 runs all of it)
+				}
+				runSession(w, Texts(append(genPrelude(), stmts...)...), opt)
+				ok = !w.Expired("time budget reached inside family")
+				return ok
+			})
+			if !ok {
+				return
+			}
+		}
+	}
 	// F2: statement-position product
 	w.Family("F2-statement-position")
 	lv := 1
